@@ -182,6 +182,61 @@ var predTexts = []string{`"p"@[]`, `"q"@[]`, `"knows"@[]`, `"p"@[2020-01-01T00:0
 
 func tkn(t lexer.TokenType, s string) *lexer.Token { return &lexer.Token{Type: t, Text: s} }
 
+// constOfKind: a constant that can meaningfully be compared with a cell of the given generator kind
+func constOfKind(r *rand.Rand, kind string) *lexer.Token {
+	switch kind {
+	case "int", "intD":
+		return tkn(lexer.ItemLiteral, pickS(r, []string{`"5"^^type:int64`, `"0"^^type:int64`, `"10"^^type:int64`, `"-4"^^type:int64`, `"-3"^^type:int64`,
+			`"100"^^type:int64`, `"3"^^type:int64`, `"2"^^type:int64`, `"1"^^type:int64`, `"99"^^type:int64`, `"9223372036854775807"^^type:int64`}))
+	case "float", "floatD", "floatN":
+		return tkn(lexer.ItemLiteral, pickS(r, []string{`"1.5"^^type:float64`, `"2"^^type:float64`, `"-2.5"^^type:float64`, `"2e-07"^^type:float64`,
+			`"1e+30"^^type:float64`, `"2e+29"^^type:float64`, `"0.5"^^type:float64`, `"10.125"^^type:float64`, `"2.5"^^type:float64`, `"1e-07"^^type:float64`}))
+	case "text", "textD", "str", "strD", "digitsT":
+		return tkn(lexer.ItemLiteral, pickS(r, []string{`"ab"^^type:text`, `"abc"^^type:text`, `"ab c"^^type:text`, `"a"^^type:text`, `"b"^^type:text`,
+			`"u"^^type:text`, `""^^type:text`, `"zeta"^^type:text`, `"k1"^^type:text`, `"t"^^type:text`, `"x"^^type:text`, `"5"^^type:text`}))
+	case "time", "timeD":
+		return tkn(lexer.ItemTime, pickS(r, append(append([]string{}, timeTexts...), instants...)))
+	case "node":
+		return tkn(lexer.ItemNode, pickS(r, nodeTexts))
+	case "pred", "tpred":
+		return tkn(lexer.ItemPredicate, pickS(r, predTexts))
+	case "bool":
+		return tkn(lexer.ItemLiteral, pickS(r, []string{`"true"^^type:bool`, `"false"^^type:bool`}))
+	}
+	return genOperand(r, 0)
+}
+
+// genThemed: well-typed expressions whose comparisons mostly match the kind of the cells (themes[binding] = kind)
+func genThemed(r *rand.Rand, binds []string, themes map[string]string, depth int) []*lexer.Token {
+	leaf := func() []*lexer.Token {
+		b := binds[r.Intn(len(binds))]
+		var rhs *lexer.Token
+		switch roll := r.Intn(10); {
+		case roll < 7:
+			rhs = constOfKind(r, themes[b])
+		case roll < 8:
+			rhs = tkn(lexer.ItemBinding, binds[r.Intn(len(binds))])
+		default:
+			rhs = genOperand(r, 1)
+		}
+		return []*lexer.Token{tkn(lexer.ItemBinding, b), cmpOp(r), rhs}
+	}
+	roll := r.Intn(10)
+	if depth <= 0 || roll < 4 {
+		return leaf()
+	}
+	if roll < 6 {
+		return append([]*lexer.Token{tkn(lexer.ItemNot, "not")}, genThemed(r, binds, themes, depth-1)...)
+	}
+	out := append([]*lexer.Token{tkn(lexer.ItemLPar, "(")}, genThemed(r, binds, themes, depth-1)...)
+	out = append(out, tkn(lexer.ItemRPar, ")"))
+	if r.Intn(3) != 0 {
+		out = append(out, boolOp(r))
+		out = append(out, genThemed(r, binds, themes, depth-1)...)
+	}
+	return out
+}
+
 func genOperand(r *rand.Rand, bindingBias int) *lexer.Token {
 	if r.Intn(10) < bindingBias {
 		return tkn(lexer.ItemBinding, bindingNames[r.Intn(len(bindingNames)-1+r.Intn(2))%len(bindingNames)])
@@ -356,7 +411,18 @@ func runExpr(gen string, toks []*lexer.Token, rows []table.Row, bs []string) exp
 func genExprCase(r *rand.Rand) exprCase {
 	var toks []*lexer.Token
 	gen := ""
+	// rows: the three bindings hold cells whose kinds match the constants often enough
+	kinds := rowKinds(r)
+	if r.Intn(3) != 0 {
+		kinds = []string{[]string{"int", "float", "text", "textD", "intD", "time", "time", "node", "pred", "strD", "str", "bool", "floatN"}[r.Intn(13)], kinds[1], kinds[2]}
+		if r.Intn(2) == 0 {
+			kinds[1] = kinds[0]
+		}
+	}
+	themes := map[string]string{"?a": kinds[0], "?b": kinds[1], "?c": kinds[2], "?zz": "int"}
 	switch roll := r.Intn(10); {
+	case roll < 3:
+		gen, toks = "themed", genThemed(r, []string{"?a", "?b", "?c"}, themes, 1+r.Intn(3))
 	case roll < 5:
 		gen, toks = "typed", genTyped(r, 1+r.Intn(3))
 	case roll < 7:
@@ -374,14 +440,6 @@ func genExprCase(r *rand.Rand) exprCase {
 		}
 	default:
 		gen, toks = "mutated", mutate(r, genTyped(r, 1+r.Intn(2)))
-	}
-	// rows: the three bindings hold cells whose kinds match the constants often enough
-	kinds := rowKinds(r)
-	if r.Intn(2) == 0 {
-		kinds = []string{[]string{"int", "float", "text", "textD", "intD", "time", "node", "pred", "strD", "bool"}[r.Intn(10)], kinds[1], kinds[2]}
-		if r.Intn(2) == 0 {
-			kinds[1] = kinds[0]
-		}
 	}
 	bs := []string{"?a", "?b", "?c"}
 	var rows []table.Row
@@ -536,7 +594,18 @@ func genE2E13(r *rand.Rand) e2eCase {
 		c.Shape = "alias"
 		sel, where, binds = "?s AS ?subj, ?o AS ?val", `{?s "v"@[] ?o}`, []string{"?subj", "?val"}
 	}
-	intended := typedTokens(r, binds, r.Intn(3))
+	ok := vK[0]
+	themes := map[string]string{"?s": "node", "?subj": "node", "?o": ok, "?val": ok, "?t": "time", "?sid": "text", "?sty": "text",
+		"?n": "int", "?d": "int"}
+	if c.Shape == "grouped" {
+		themes["?t"] = "int"
+	}
+	var intended []*lexer.Token
+	if r.Intn(3) == 0 {
+		intended = typedTokens(r, binds, r.Intn(3))
+	} else {
+		intended = genThemed(r, binds, themes, r.Intn(3))
+	}
 	if r.Intn(12) == 0 {
 		intended = wrapParens(intended, 2)
 	}
